@@ -89,14 +89,15 @@ type vMember struct {
 }
 
 type vCfg struct {
-	Reclaim       int64 `json:"reclaim"`
-	GossipDead    int64 `json:"gossipDead"`
-	AllowOn       bool  `json:"allowOn"`
-	AliveDelegate bool  `json:"aliveDelegate"`
-	Mult          int   `json:"mult"`
-	MaxMult       int   `json:"maxMult"`
-	Interval      int64 `json:"interval"`
-	Fillers       int   `json:"fillers"`
+	Reclaim       int64  `json:"reclaim"`
+	GossipDead    int64  `json:"gossipDead"`
+	AllowOn       bool   `json:"allowOn"`
+	AliveDelegate bool   `json:"aliveDelegate"`
+	Mult          int    `json:"mult"`
+	MaxMult       int    `json:"maxMult"`
+	Interval      int64  `json:"interval"`
+	Fillers       int    `json:"fillers"`
+	VetoMeta      string `json:"vetoMeta"`
 }
 
 // vLine is one trace line.  Unused fields keep their zero values so that every
@@ -192,13 +193,13 @@ func vBlankLine(ev string) *vLine {
 // Per-node registration
 
 type vNode struct {
-	m       *Memberlist
-	name    string
-	cfg     vCfg
-	allow   []netip.Prefix // independent copy of the allowlist (nil = off)
-	created bool
+	m        *Memberlist
+	name     string
+	cfg      vCfg
+	allow    []netip.Prefix // independent copy of the allowlist (nil = off)
+	created  bool
 	vetoMeta string
-	labels  *vLabels
+	labels   *vLabels
 	// open brackets per goroutine (innermost last)
 	open map[int64][]*vOpen
 	// merge context per goroutine: remote state of the entry being merged, and its line
@@ -221,19 +222,19 @@ type vLabels struct {
 }
 
 type vSink struct {
-	mu     sync.Mutex
-	w      *bufio.Writer
-	f      *os.File
-	g      int64
-	epoch  time.Time
-	nodes  map[*Memberlist]*vNode
-	aware  map[*awareness]*vNode
-	caseID int
-	lines  int
-	exact  bool
-	keep   func(*vLine) bool // optional filter
-	mem    []*vLine          // in-memory copy when collect is set
-	collect bool
+	mu       sync.Mutex
+	w        *bufio.Writer
+	f        *os.File
+	g        int64
+	epoch    time.Time
+	nodes    map[*Memberlist]*vNode
+	aware    map[*awareness]*vNode
+	caseID   int
+	lines    int
+	exact    bool
+	keep     func(*vLine) bool // optional filter
+	mem      []*vLine          // in-memory copy when collect is set
+	collect  bool
 	onPacked func(m *Memberlist, overhead, limit int, msgs [][]byte)
 }
 
